@@ -522,7 +522,12 @@ def _iter_collect(it, st, items, args, ctx):
             mm = mm.insert(x, UNIT)
         return Opaque('Map', mm)
     if tb == 'TransactionSet':
-        return NotImplemented
+        # TransactionSet: FromIterator<Transaction> is melstf's own code: run it on the drained items
+        sub = type('C', (), {})()
+        sub.__dict__.update(ctx.__dict__)
+        sub.callee = '<TransactionSet as FromIterator<Transaction>>::from_iter'
+        src = mk_iter(IterM('values', items=[deref(it, st, x) if isinstance(x, Ptr) else x for x in items], pos=0))
+        return it.call(st, sub.callee, [src], sub)
     raise Unsupported('collect into ' + target)
 
 
